@@ -75,6 +75,7 @@ class Walk:
         self.optional = set()  # paths that may or may not be reported
         self.deny = set()      # directories whose listing fails (fault injection; the oracle runs as root)
         self.out_of_domain = False
+        self.xdev = False      # -xdev / -mount: a directory on another file system than the starting point is visited, not descended
 
     def _abs(self, p):
         if self.cwd and not p.startswith("/"):
@@ -85,6 +86,10 @@ class Walk:
         """on_visit(entry) -> truthy to prune (pre-order only). May raise StopWalk."""
         self._root = root
         self._on_visit = on_visit
+        try:
+            self._root_dev = os.stat(self._abs(root)).st_dev
+        except OSError:
+            self._root_dev = None
         self._visit(root, 0, [])
 
     def _visit(self, path, depth, ancestors):
@@ -135,6 +140,8 @@ class Walk:
                 return
         in_range = depth >= self.mindepth and (self.maxdepth is None or depth <= self.maxdepth)
         may_descend = isdir and (self.maxdepth is None or depth < self.maxdepth)
+        if self.xdev and depth > 0 and isdir and rec.st_dev != self._root_dev:
+            may_descend = False
         pruned = False
         if in_range and not self.depth_first:
             pruned = bool(self._on_visit(ent))
